@@ -278,3 +278,97 @@ Proof.
 Qed.
 
 End AsyncVsSync.
+
+(* ---- every outcome of the two-process model is an outcome of the synchronous model for some fault plan ---- *)
+Section AsyncCovered.
+Variable fl : flavour.
+Notation exec := (doer_exec fl).
+
+(* executed ++ queued is always a prefix of the plan's commands *)
+Lemma prefix_inv d0 steps s : areach exec (ainit d0 steps) s ->
+  exists rest, dest_cmds steps = a_done s ++ qcmds (a_queue s) ++ rest.
+Proof.
+  induction 1 as [|s s' Hr IH Hst]; [exists (dest_cmds steps); reflexivity|].
+  destruct IH as (rest & E). destruct Hst; cbn [a_done a_queue] in *.
+  - exists rest. cbn [qcmds flat_map app] in E. rewrite E, <- !app_assoc. reflexivity.
+  - exists rest. exact E.
+  - (* boss_send: need the sent command to be the next of the plan *)
+    destruct (inv_reach exec d0 steps _ Hr) as (_ & _ & I3 & _). cbn [a_boss a_done a_queue] in I3.
+    exists (dest_cmds rest0). rewrite qcmds_app. cbn [qcmds flat_map app]. cbn [dest_cmds flat_map app] in I3.
+    rewrite I3, <- !app_assoc. reflexivity.
+  - exists rest. exact E.
+  - exists rest. exact E.
+  - exists rest. rewrite qcmds_app. cbn [qcmds flat_map]. rewrite app_nil_r. exact E.
+  - exists rest. exact E.
+  - exists rest. exact E.
+  - exists rest. exact E.
+Qed.
+
+(* the synchronous model with "the doer dies after n commands" and an unbounded notice lag executes exactly the
+   first n commands of the plan *)
+Definition stop_plan (n lag : nat) : faults := mkFaults [] [] lag (Some n).
+
+Lemma sync_stop_prefix steps : forall r n lag,
+  (forall c, In c (dest_cmds steps) -> mutating c = true) ->
+  rs_srcfail r = false ->
+  (rs_budget r = None \/ exists k, rs_budget r = Some k /\ length steps < k) -> length steps < lag ->
+  rs_d (run_steps fl (stop_plan n lag) r steps) = exec_all fl (rs_d r) (firstn (n - rs_mut r) (dest_cmds steps)).
+Proof.
+  induction steps as [|s rest IH]; intros r n lag Hmut Hs Hbud Hlag.
+  - cbn. destruct (n - rs_mut r); reflexivity.
+  - change (run_steps fl (stop_plan n lag) r (s :: rest)) with (run_steps fl (stop_plan n lag) (run_step fl (stop_plan n lag) r s) rest).
+    assert (Hstep : run_step fl (stop_plan n lag) r s = do_step fl (stop_plan n lag) r s).
+    { unfold run_step. rewrite Hs. destruct Hbud as [->|(k & -> & Hk)]; [reflexivity|]. destruct k; [cbn in Hk; lia|reflexivity]. }
+    rewrite Hstep. cbn [length] in *.
+    assert (Hbud' : forall r', rs_budget r' = match (match rs_budget r with Some (S m) => Some m | x => x end) with None => rs_budget r' | x => x end -> True) by auto.
+    destruct s as [c|q].
+    + assert (Hmc : mutating c = true) by (apply Hmut; unfold dest_cmds; cbn [flat_map app]; left; reflexivity).
+      unfold dest_cmds in *. cbn [flat_map app] in *.
+      unfold do_step. cbn [stop_plan ft_stop ft_dest ft_lag mem_nat existsb]. rewrite Hmc, !andb_false_r. cbn [andb]. cbv zeta.
+      destruct (Nat.leb n (rs_mut r)) eqn:Estop.
+      * (* stopped: nothing is executed now or later *)
+        apply Nat.leb_le in Estop. assert (n - rs_mut r = 0) by lia. rewrite H. cbn [firstn exec_all fst snd].
+        set (r1 := mkR _ _ _ _ _ _ _ _).
+        rewrite (IH r1 n lag); [|intros c' Hc'; apply Hmut; right; exact Hc'|reflexivity| |lia].
+        -- cbn [rs_d rs_mut r1]. assert (n - S (rs_mut r) = 0) by lia. rewrite H0. reflexivity.
+        -- right. unfold r1. cbn [rs_budget]. destruct Hbud as [->|(k & -> & Hk)].
+           ++ exists lag. split; [reflexivity|lia].
+           ++ destruct k as [|k']; [lia|]. exists k'. split; [reflexivity|lia].
+      * apply Nat.leb_gt in Estop. destruct (n - rs_mut r) as [|m] eqn:En; [lia|]. cbn [firstn exec_all].
+        destruct (snd (doer_exec fl (rs_d r) c)) eqn:Esnd; cbn [fst snd].
+        -- set (r1 := mkR _ _ _ _ _ _ _ _).
+           rewrite (IH r1 n lag); [|intros c' Hc'; apply Hmut; right; exact Hc'|reflexivity| |lia].
+           ++ cbn [rs_d rs_mut r1]. replace (n - S (rs_mut r)) with m by lia. reflexivity.
+           ++ right. unfold r1. cbn [rs_budget]. destruct Hbud as [->|(k & -> & Hk)].
+              ** exists lag. split; [reflexivity|lia].
+              ** destruct k as [|k']; [lia|]. exists k'. split; [reflexivity|lia].
+        -- set (r1 := mkR _ _ _ _ _ _ _ _).
+           rewrite (IH r1 n lag); [|intros c' Hc'; apply Hmut; right; exact Hc'|reflexivity| |lia].
+           ++ cbn [rs_d rs_mut r1]. replace (n - S (rs_mut r)) with m by lia. reflexivity.
+           ++ unfold r1. cbn [rs_budget]. destruct Hbud as [->|(k & -> & Hk)]; [left; reflexivity|].
+              destruct k as [|k']; [lia|]. right. exists k'. split; [reflexivity|lia].
+    + unfold dest_cmds in *. cbn [flat_map app] in *. unfold do_step. cbn [stop_plan ft_src mem_nat existsb].
+      set (r1 := mkR _ _ _ _ _ _ _ _).
+      rewrite (IH r1 n lag); [|exact Hmut|reflexivity| |lia].
+      * reflexivity.
+      * unfold r1. cbn [rs_budget]. destruct Hbud as [->|(k & -> & Hk)]; [left; reflexivity|].
+        destruct k as [|k']; [lia|]. right. exists k'. split; [reflexivity|lia].
+Qed.
+
+(* Whatever the two processes do, once the boss has stopped and the doer has nothing left in its queue the doer's
+   world is what the synchronous model computes for the fault plan "the doer dies after n commands" (n = the
+   number of commands it executed): every theorem proved for ALL fault plans of Model/Sync.run_steps covers
+   every interleaving of the asynchronous system. *)
+Theorem async_covered_by_sync D t0 s0 steps s :
+  (forall c, In c (dest_cmds steps) -> mutating c = true) ->
+  areach exec (ainit D steps) s ->
+  a_d s = rs_d (run_steps fl (stop_plan (length (a_done s)) (S (length steps))) (mkR D t0 s0 [] false 0 0 None) steps).
+Proof.
+  intros Hmut Hr. destruct (inv_reach exec D steps s Hr) as (I1 & _). destruct (prefix_inv D steps s Hr) as (rest & E).
+  rewrite (sync_stop_prefix steps (mkR D t0 s0 [] false 0 0 None) (length (a_done s)) (S (length steps)) Hmut eq_refl);
+    [|left; reflexivity|lia].
+  cbn [rs_d rs_mut]. rewrite Nat.sub_0_r, E, firstn_app, firstn_all, Nat.sub_diag. cbn [firstn]. rewrite app_nil_r.
+  rewrite I1. apply run_all_exec_all.
+Qed.
+
+End AsyncCovered.
